@@ -7,6 +7,7 @@ Nothing is imported from sansldap; everything comes from the AST.
 from __future__ import annotations
 
 import ast
+import copy
 import hashlib
 import os
 from dataclasses import dataclass, field
@@ -98,6 +99,7 @@ class Model:
         if not os.path.isdir(self.src):
             raise AnalysisError(f"package directory {self.src} not found")
         h = hashlib.sha256()
+        parsed = []
         for fn in sorted(os.listdir(self.src)):
             if not fn.endswith(".py"):
                 continue
@@ -110,8 +112,41 @@ class Model:
                 tree = ast.parse(source, filename=path)
             except SyntaxError as e:  # a tree that does not compile is not analysable
                 raise AnalysisError(f"{path}: syntax error {e}")
-            from .desugar import desugar_module
-            counts = desugar_module(tree)
+            parsed.append((modname, path, source, tree))
+        from .desugar import desugar_module, exported_generators
+        # generator helpers one module imports from another are expanded like its own, provided every global name their code
+        # mentions means the same thing in the importing module
+        def import_table(modname, tree):
+            tab = {}
+            for node in tree.body:
+                if isinstance(node, ast.ImportFrom):
+                    base = self._abs_module(modname, node.module, node.level)
+                    for a in node.names:
+                        tab[a.asname or a.name] = f"{base}.{a.name}"
+                elif isinstance(node, ast.Import):
+                    for a in node.names:
+                        tab[a.asname or a.name.split(".")[0]] = a.name if a.asname else a.name.split(".")[0]
+                elif isinstance(node, (ast.FunctionDef, ast.AsyncFunctionDef, ast.ClassDef)):
+                    tab[node.name] = f"{modname}.{node.name}"
+                elif isinstance(node, (ast.Assign, ast.AnnAssign, ast.AugAssign)):
+                    for name in self._targets(node):
+                        tab[name] = f"{modname}.{name}"
+            return tab
+        tables = {modname: import_table(modname, tree) for modname, _p, _s, tree in parsed}
+        exports = {modname: exported_generators(copy.deepcopy(tree)) for modname, _p, _s, tree in parsed}
+        for modname, path, source, tree in parsed:
+            foreign = {}
+            for node in tree.body:
+                if isinstance(node, ast.ImportFrom):
+                    base = self._abs_module(modname, node.module, node.level)
+                    for a in node.names:
+                        gen = exports.get(base, {}).get(a.name)
+                        if gen is None:
+                            continue
+                        fn, free = gen
+                        if all(tables[modname].get(nm) == tables[base].get(nm) and tables[base].get(nm) is not None for nm in free):
+                            foreign[a.asname or a.name] = fn
+            counts = desugar_module(tree, foreign)
             self.desugared = getattr(self, "desugared", {})
             if any(counts.values()):
                 self.desugared[modname] = {k: v for k, v in counts.items() if v}
